@@ -104,6 +104,13 @@ def table_discipline(ctx, pfx):
         rep.check(r2, is_gen and not off, 'add_tcb:validated',
                   'key = %s; every path to add_tcb establishes key == (ack-1 mod 2^32): %s' % (short(key_e), not off), tcp.loc(bi))
 
+    # the cookie that is compared (and used as the key) identifies this flow: it hashes each endpoint field, whole and
+    # by itself - a cookie that ignores or mixes fields lets one flow's valid ack admit another flow
+    from rules.c06 import cookie_inputs
+    for ok_, key_, det_, loc_ in cookie_inputs(F):
+        if key_.startswith('generate:feeds:') or key_.startswith('generate:write:'):
+            rep.check(r2, ok_, 'cookie:' + key_, det_, loc_)
+
     # R3: no table function elsewhere
     r3 = rep.rule(pfx + ('-R3' if pfx == 'C09' else '-R6c'), 'no connection-table function is reachable from udp/icmp/arp handling, nor on any TCP arm other than PSH|ACK', floor=5)
     for root in ['layer_4::udp::repl', 'layer_4::icmpv4::repl', 'layer_4::icmpv6::repl', 'layer_2::arp::repl']:
